@@ -413,7 +413,7 @@ func (c13Stream) Impl(c Case) string {
 		tap.mu.Unlock()
 	}
 	sut.finish()
-	return verdict + "\t" + traceString(sut.tr.Snapshot(), "conn.", "loop.", "req.")
+	return verdict + "\t" + traceString(sut.tr.Snapshot(), "conn.", "loop.", "req.", "run.", "stop.")
 }
 
 // c13Overlap: for the race detector only. A slow request is still being handled when the StartTLS request behind it
